@@ -9,7 +9,7 @@ from harness import modelgen as G
 PID = "C02"; COQ_TARGET = "C02"
 SPECIES = ["A", "B2", "X_1", "C", "S", "E", "N"]
 PARAMS = ["k", "k_2", "O", "Q", "I", "alpha9"]        # 'I', 'O', 'Q', 'N', 'E', 'S', 'C' collide with sympy constants/functions
-UNDERSCORE_PARAMS = ["_k", "_alpha9"]                 # spelled with a leading underscore in the formula
+UNDERSCORE_PARAMS = ["_k", "_alpha9", "__k"]          # spelled with a leading underscore in the formula; exactly ONE leading underscore is the escape: __k reads the parameter _k (seeded change S8_C02: every leading underscore stripped)
 RULE = ("random expression trees of depth <= 5 over + - * / ^ exp log abs Heaviside Max Min, numbers, species, parameters (incl. names colliding with sympy constants and "
         "leading-underscore spellings), t, volume; printed to strings; compiled as general propensity / assignment rule / parse_expression; evaluated at 3 finite points "
         "with and without volume; malformed stream: unknown names, unsupported functions, unbalanced parentheses, constant sub-expressions without a real value; non-trivial = depth >= 3 and a colliding or underscore name")
@@ -97,7 +97,7 @@ def gen_cases(seed, tier):
         for _ in range(3):
             env = {s: rng.choice([0.0, 1.0, 2.0, 3.5, 6.0, 0.25]) for s in SPECIES}
             env.update({p: rng.choice([0.5, 1.0, 2.0, 0.1, 4.0]) for p in PARAMS}); env["t"] = rng.choice([0.0, 0.5, 2.0])
-            pts.append({"env": env, "V": rng.choice([0.5, 2.0, 3.0])})
+            env.setdefault("_k", 7.0 + 4.0 * (len(pts) % 2)); pts.append({"env": env, "V": rng.choice([0.5, 2.0, 3.0])})
         cases.append({"kind": "expr", "tree": tr, "string": to_string(tr), "points": pts, "via": rng.choice(["propensity", "rule", "parse", "oderule"])})
     # volume sweep: every operator x every argument position carries a volume-bearing subtree, the other positions simple
     # fillers; more evaluation points, so that for Max / Min the volume-bearing argument decides the value at some of them
@@ -122,7 +122,7 @@ def gen_cases(seed, tier):
                         for _ in range(6):
                             env = {s_: rng.choice([0.0, 1.0, 2.0, 3.5, 6.0, 0.25]) for s_ in SPECIES}
                             env.update({p_: rng.choice([0.5, 1.0, 2.0, 0.1, 4.0]) for p_ in PARAMS}); env["t"] = rng.choice([0.0, 0.5, 2.0])
-                            pts.append({"env": env, "V": rng.choice([0.5, 2.5, 3.0, 0.2])})
+                            env.setdefault("_k", 7.0 + 4.0 * (len(pts) % 2)); pts.append({"env": env, "V": rng.choice([0.5, 2.5, 3.0, 0.2])})
                         cases.append({"kind": "expr", "tree": tr, "string": to_string(tr), "points": pts, "via": rng.choice(["propensity", "rule", "parse", "oderule"]), "family": "volsweep"})
     # role swap: ONE expression text compiled in several models of the same process in which its names change role (species /
     # parameter) and position (padding species and parameters shift the indices): every build must evaluate to the written
